@@ -26,7 +26,9 @@ def loop(pkg, test, qs=4, ts=16, replay=None, timeout=900, ttimeout=7200, q=1, t
     return d
 
 CHECKS = {
-    "C01": dict(tests=[rapid("e2e", "TestC01", 960, 32000, qs=16, ts=16, timeout=1200, ttimeout=14000)]),
+    "C01": dict(tests=[rapid("e2e", "TestC01", 960, 32000, qs=16, ts=16, timeout=1200, ttimeout=14000),
+                       # the same on a chain whose first streamable block is 3 (process-wide setting: own processes)
+                       rapid("e2e", "TestC01FSB", 320, 8000, qs=16, ts=16, timeout=1200, ttimeout=14000, env={"VERIF_FSB": "3"})]),
     "C02": dict(tests=[rapid("storeprops", "TestC02", 24000, 2400000, qs=8)]),
     "C03": dict(tests=[
         rapid("storeprops", "TestC03Store", 24000, 1600000, qs=8, replay="TestC03StoreReplay"),
